@@ -83,9 +83,10 @@ static const echs_wday_t __jan01_28y_wday[] = {
 struct enum_s {
 	size_t nel;
 	uint8_t nH, nM, nS;
-	uint8_t H[24U];
+	/* BYHOUR goes up to 24, BYSECOND up to 60 (leap second) */
+	uint8_t H[25U];
 	uint8_t M[60U];
-	uint8_t S[60U];
+	uint8_t S[61U];
 };
 
 #define ENUM_INIT(e, s, ...)		size_t s = 0U, ENUM_INIT_M(e, ## __VA_ARGS__, auto_m)
